@@ -254,7 +254,41 @@ def statics(ctx):
         ctx.ok('C18-3.statics', 'inventory', 'no static mut, interior-mutable static, thread_local! or lazy_static! in non-test code (%d immutable statics)' % len(st))
 
 
+# functions reviewed for their use of rayon: what runs in parallel there is a per-element step on disjoint elements, no reduction
+REVIEWED_PARALLEL = {'LocomotiveSimulationVec::walk'}
+PAR_CALLEE = re.compile(r'rayon::|ParallelIterator|IntoParallel|ParallelBridge|\bpar_(iter|iter_mut|bridge|chunks|chunks_mut|sort\w*|extend)\b|into_par_iter')
+PAR_REDUCTION = re.compile(r'(ParallelIterator|IndexedParallelIterator)>::(sum|product|reduce|reduce_with|fold|fold_with|try_reduce\w*|try_fold\w*|min_by\w*|max_by\w*|min|max|find_any|position_any|any|all)\b')
+
+
+def parallel_inventory(ctx):
+    """every use of a parallel iterator in the crate sits in a reviewed function, and none of them reduces: a parallel sum /
+    fold / reduce of floating-point values follows the pool's split tree, so its rounding — and everything computed from it —
+    depends on the number of workers and on work stealing; the `_any` searches return whichever match a worker finds first"""
+    R = 'C18-4.parallel'
+    prog = ctx.prog
+    sites = 0
+    for b in prog.bodies:
+        if b.test:
+            continue
+        owner = b.closure_of or b.fid
+        owner = re.sub(r'::\{closure#\d+\}.*$', '', owner)
+        hits = [(bn, t) for bn, t in CFG(b).call_sites() if PAR_CALLEE.search(t.callee)]
+        if not hits:
+            continue
+        sites += len(hits)
+        red = [t for bn, t in hits if PAR_REDUCTION.search(t.callee)]
+        for t in red:
+            ctx.bad(R, '%s|parallel reduction' % owner, 'a parallel iterator is reduced with `%s`: the result depends on how the pool splits the work'
+                    % PAR_REDUCTION.search(t.callee).group(2), ctx.where(b, t.span))
+        if owner not in REVIEWED_PARALLEL:
+            ctx.bad(R, '%s|unreviewed parallelism' % owner, 'parallel iterator used outside the reviewed functions %s: %s' % (sorted(REVIEWED_PARALLEL),
+                    sorted({strip_generics(t.callee).split('::')[-1] for bn, t in hits})), ctx.where(b, hits[0][1].span))
+    ctx.check(sites >= 1, R, 'parallel call sites', '%d parallel-iterator call sites, all inside %s, none a reduction' % (sites, sorted(REVIEWED_PARALLEL)),
+              'no parallel-iterator call site found at all (the inventory pattern no longer matches)')
+
+
 def parallel(ctx):
+    parallel_inventory(ctx)
     prog = ctx.prog
     fid = 'LocomotiveSimulationVec::walk'
     b = ctx.anchor('C18-4.parallel', fid)
